@@ -12,6 +12,7 @@ package main
 
 import (
 	"bufio"
+	"encoding/hex"
 	"encoding/json"
 	"flag"
 	"fmt"
@@ -63,7 +64,7 @@ func readLines(path string, each func([]byte)) {
 	}
 }
 
-// watchdog: one case must finish within 20 s; a hang is an event and exit code 3, never a stuck check.
+// watchdog: one case must finish within 60 s; a hang is an event and exit code 3, never a stuck check.
 func watchdog(tr *vh.Trace, stop chan struct{}) {
 	last := int64(-1)
 	stuck := 0
@@ -80,7 +81,7 @@ func watchdog(tr *vh.Trace, stop chan struct{}) {
 			stuck = 0
 			last = cur
 		}
-		if stuck >= 10 {
+		if stuck >= 30 {
 			desc, _ := curCase.Load().(string)
 			tr.Emit(vh.M{"op": "hang", "sc": int(cur), "in": desc})
 			tr.Close()
@@ -141,6 +142,7 @@ func buildIndex(fx []corpus.Fixture, types []gopacket.LayerType) *index {
 		ix.byType[tn] = append(ix.byType[tn], e)
 	}
 	for fi, f := range fx {
+		tick.Add(1)
 		if len(f.Data) > 9000 {
 			continue
 		}
@@ -178,6 +180,9 @@ func buildIndex(fx []corpus.Fixture, types []gopacket.LayerType) *index {
 // pickInput: choose a serializable layer type uniformly, then an input that decodes to it; optionally
 // mutate the input (structural or layer-aware mutation) or decode it as an arbitrary registered type.
 func pickInput(r *vh.Rand, fx []corpus.Fixture, ix *index, types []gopacket.LayerType, mutate bool, maxlen int) (input, string) {
+	if replayIn != nil {
+		return *replayIn, ""
+	}
 	tn := ix.names[r.Intn(len(ix.names))]
 	es := ix.byType[tn]
 	e := es[r.Intn(len(es))]
@@ -205,6 +210,16 @@ func pickInput(r *vh.Rand, fx []corpus.Fixture, ix *index, types []gopacket.Laye
 		data = data[:maxlen]
 	}
 	return input{name: name, data: data, first: first}, tn
+}
+
+var noBig bool
+var replayIn *input // set by -inhex: the only input to run
+
+func hexOf(b []byte) string {
+	if len(b) > 1600 {
+		return ""
+	}
+	return hex.EncodeToString(b)
 }
 
 var defaultNet = &layers.IPv4{Version: 4, IHL: 5, TTL: 64, SrcIP: []byte{1, 2, 3, 4}, DstIP: []byte{5, 6, 7, 8}}
@@ -253,7 +268,22 @@ func main() {
 	maxlen := flag.Int("maxlen", 9000, "maximum input length")
 	only := flag.String("only", "", "c06: restrict to sources (comma list of fix,gen,stack)")
 	part := flag.String("part", "0/1", "c06: process only TLC scenarios with index = i mod k (i/k)")
+	flag.BoolVar(&noBig, "nobig", false, "c06: leave out the built-in > 64 KiB cases (replay)")
+	inhex := flag.String("inhex", "", "replay: run only this input (hex) instead of sampling the corpus")
+	inFirst := flag.String("first", "Ethernet", "replay: first layer type of -inhex")
 	flag.Parse()
+	if *inhex != "" {
+		b, err := hex.DecodeString(*inhex)
+		if err != nil {
+			vh.Fatal("bad -inhex:", err)
+		}
+		replayIn = &input{name: "replay", data: b, first: layers.LayerTypeEthernet}
+		for _, t := range corpus.RegisteredTypes() {
+			if t.String() == *inFirst {
+				replayIn.first = t
+			}
+		}
+	}
 	tr := vh.NewTrace(*out)
 	stop := make(chan struct{})
 	go watchdog(tr, stop)
